@@ -12,7 +12,7 @@ for id in $IDS; do
     t0=$(date +%s)
     out=$(KEEP_REPLAYS=/tmp/mutant-replays/$id/$name tools/mutant.sh $id $p quick 2>&1)
     t1=$(date +%s)
-    verdict=$(echo "$out" | tail -1 | grep -o 'KILLED\|SURVIVED\|PATCH-FAILED' | head -1)
+    verdict=$(echo "$out" | tail -1 | grep -o 'KILLED\|SURVIVED\|PATCH-FAILED\|HARNESS-ERROR' | head -1)
     [ -z "$verdict" ] && verdict=$(echo "$out" | grep -o 'PATCH-FAILED' | head -1)
     first=$(echo "$out" | grep -m1 VIOLATION | sed 's/.*# //' | cut -c1-160 | tr '\t' ' ')
     printf "%s\t%s\t%s\t%s\t%s\t%s\n" "$id" "$kind" "$name" "${verdict:-ERROR}" "$((t1-t0))" "$first" | tee -a $TMP
@@ -20,7 +20,7 @@ for id in $IDS; do
     if [ "$kind" = seeded ] && [ -f seeded/$name/also_check ]; then
       oid=$(cat seeded/$name/also_check); t0=$(date +%s)
       out=$(tools/mutant.sh $oid $p quick 2>&1); t1=$(date +%s)
-      verdict=$(echo "$out" | tail -1 | grep -o 'KILLED\|SURVIVED\|PATCH-FAILED' | head -1)
+      verdict=$(echo "$out" | tail -1 | grep -o 'KILLED\|SURVIVED\|PATCH-FAILED\|HARNESS-ERROR' | head -1)
       first=$(echo "$out" | grep -m1 VIOLATION | sed 's/.*# //' | cut -c1-160 | tr '\t' ' ')
       printf "%s\t%s\t%s\t%s\t%s\t%s\n" "$id" "seeded-via-$oid" "$name" "${verdict:-ERROR}" "$((t1-t0))" "$first" | tee -a $TMP
     fi
